@@ -46,7 +46,7 @@ class HarnessError(Exception):
 
 class Search(object):
     def __init__(self, name, kind, gen, n=None, shards=1, shrink=True,
-                 max_shrink_s=240):
+                 max_shrink_s=60):
         self.name, self.kind, self.gen = name, kind, gen
         self.n, self.shards, self.shrink = n, shards, shrink
         self.max_shrink_s = max_shrink_s
@@ -131,6 +131,9 @@ class Res(object):
             self.fail('exc:%s:RecursionError' % stage, 'RecursionError')
             raise Aborted()
         except Exception as e:
+            if type(e).__name__ == 'Hang':     # vlib.hygiene.eof_guard: deterministic non-termination
+                self.fail('hang:%s' % stage, str(e))
+                raise Aborted()
             where = _in_repo_frame(sys.exc_info()[2])
             self.fail('exc:%s:%s:%s' % (stage, type(e).__name__, where),
                       '%s: %s' % (type(e).__name__, str(e)[:500]))
@@ -145,11 +148,41 @@ class Aborted(Exception):
     """case aborted after a library exception was recorded as a finding"""
 
 
+class CaseTimeout(BaseException):
+    pass
+
+
+def _on_alarm(signum, frame):
+    raise CaseTimeout()
+
+
 def evaluate(mod, case):
-    """Run one case through the property's oracle; returns Res."""
+    """Run one case through the property's oracle; returns Res.  A per-case wall-clock
+    limit (module CASE_TIMEOUT, default 300 s) exists only so that a hang cannot stall the
+    check: it is reported as a harness error (exit 2, inconclusive), never as a violation."""
+    import signal, threading
     R = Res()
     out = io.StringIO()
     cwd = os.getcwd()
+    limit = getattr(mod, 'CASE_TIMEOUT', 300)
+    use_alarm = threading.current_thread() is threading.main_thread()
+    if use_alarm:
+        old = signal.signal(signal.SIGALRM, _on_alarm)
+        signal.setitimer(signal.ITIMER_REAL, limit)
+    try:
+        return _evaluate(mod, case, R, out)
+    except CaseTimeout:
+        raise HarnessError('case exceeded the %d s harness safety limit (inconclusive): %s' % (
+            limit, canon(case)[:3000]))
+    finally:
+        if use_alarm:
+            signal.setitimer(signal.ITIMER_REAL, 0)
+            signal.signal(signal.SIGALRM, old)
+        os.chdir(cwd)
+        R.cleanup()
+
+
+def _evaluate(mod, case, R, out):
     try:
         with contextlib.redirect_stdout(out):
             try:
@@ -170,8 +203,7 @@ def evaluate(mod, case):
                 R.fail('exc:uncaught:%s:%s' % (type(e).__name__, where),
                        '%s: %s' % (type(e).__name__, str(e)[:500]))
     finally:
-        os.chdir(cwd)
-        R.cleanup()
+        pass
     return R
 
 
@@ -422,7 +454,7 @@ def run_property(modname, tier, seed, only=None):
             continue
         case, detail = f['case'], f['detail']
         s = sdict.get(f['search'])
-        if s is not None and s.kind == 'hyp' and s.shrink:
+        if s is not None and s.kind == 'hyp' and s.shrink and len(violations) < 3:
             try:
                 case, detail = shrink(mod, s, f, sig)
             except HarnessError:
